@@ -213,6 +213,8 @@ func monitorCheck(prop string, c Case, p *winterp.Program) (msg string, nontrivi
 	}
 	if prop == "C01" {
 		nontrivial = total.Index+total.Slice+total.Arith+total.Assign > 0
+	} else if prop == "C10" {
+		nontrivial = len(p.Getters()) > 0 && total.Assign > 0
 	} else {
 		nontrivial = total.FactsNonConst > 0
 	}
@@ -282,6 +284,11 @@ func numbered(src string) string {
 func TestPropC01(t *testing.T) { runMonitorProp(t, "C01", "program") }
 func TestPropC02(t *testing.T) { runMonitorProp(t, "C02", "program") }
 
+// TestPropC10 is the generated-program half of C10's dynamic clause: calling a
+// method declared pure (every public getter is called after every step of
+// every history) leaves the receiver unchanged.
+func TestPropC10(t *testing.T) { runMonitorProp(t, "C10", "program") }
+
 func TestReplay(t *testing.T) {
 	path := ev.ReplayPath()
 	if path == "" {
@@ -312,7 +319,7 @@ func TestReplay(t *testing.T) {
 		return
 	}
 	switch r.Property {
-	case "C01", "C02":
+	case "C01", "C02", "C10":
 		checkMonitorCase(t, r.Property, r.Kind, c, p)
 	case "C04":
 		checkC04Units(t, []Case{c}, []*winterp.Program{p})
